@@ -197,6 +197,8 @@ def inline_call(fd, c, hd, serial):
         return False
     tag = "%s#%d" % (hd["name"], serial)
     off = len(F)
+    # a callee local keeps its name: a verbatim extraction moves a variable, and where the caller keeps a
+    # variable of the same name for the rest of its work the two play the same role
     # ---- copy the callee's nodes
     for j, nd in enumerate(H):
         n2 = dict(nd)
